@@ -392,7 +392,7 @@ func (r *Run) doOp(sc *plan.Script, idx int, op *plan.Op, rec *plan.Rec) {
 		r.doFuzz(sc, op, rec)
 		return
 	}
-	if op.K == "putv" || op.K == "getv" || strings.HasPrefix(op.K, "snap.") {
+	if op.K == "putv" || op.K == "getv" || op.K == "delv" || strings.HasPrefix(op.K, "snap.") {
 		r.doValueOp(sc, op, rec)
 		return
 	}
